@@ -14,6 +14,7 @@ sys.dont_write_bytecode = True
 HERE = os.path.dirname(os.path.dirname(os.path.abspath(__file__)))
 PY = '/venv/bin/python'
 OUT = os.path.join(HERE, 'out')
+LOGS = 'logs-%d' % os.getpid()
 
 from .core import DEFAULT_SEED, derive_seed, splitmix64   # noqa: E402
 from . import worlds                                        # noqa: E402
@@ -89,9 +90,9 @@ def _run_seed_prefix(doc, repo, timeout=1800):
     environment, ASLR off - only the mode flag (same width) tells the worker not to minimise."""
     args = doc['batch_args']
     d = args['out_dir']
-    os.makedirs(os.path.join(d, 'logs'), exist_ok=True)
-    apath = os.path.join(d, 'logs', 'job%03d.json' % args['group'])
-    lpath = os.path.join(d, 'logs', 'job%03d.log' % args['group'])
+    os.makedirs(os.path.join(d, LOGS), exist_ok=True)
+    apath = os.path.join(d, LOGS, 'job%03d.json' % args['group'])
+    lpath = os.path.join(d, LOGS, 'job%03d.log' % args['group'])
     with open(apath, 'w') as f:
         json.dump(args, f)
     try:
@@ -363,9 +364,9 @@ def run_jobs(jobs, ncpu, repo, wall_s, stop_on_violation=True):
             group, hashseed, args = pending.pop(0)
             mode = args.pop('_mode', 'normal') if isinstance(args, dict) else 'normal'
             d = args['out_dir']
-            os.makedirs(os.path.join(d, 'logs'), exist_ok=True)
-            apath = os.path.join(d, 'logs', 'job%03d.json' % group)
-            lpath = os.path.join(d, 'logs', 'job%03d.log' % group)
+            os.makedirs(os.path.join(d, LOGS), exist_ok=True)
+            apath = os.path.join(d, LOGS, 'job%03d.json' % group)
+            lpath = os.path.join(d, LOGS, 'job%03d.log' % group)
             with open(apath, 'w') as f:
                 json.dump(args, f)
             p = subprocess.Popen(_no_aslr() + [PY, '-m', 'simlab.worker', 'batch', apath],
@@ -530,11 +531,25 @@ def confirm_known(prop, repo):
 
 
 def cmd_check(prop, tier, repo, batch_seed, runs=None, quiet=False, wall=None, only_seed=None):
+    rc = None
+    try:
+        rc = _cmd_check(prop, tier, repo, batch_seed, runs=runs, quiet=quiet, wall=wall, only_seed=only_seed)
+        return rc
+    finally:
+        if rc == 0:
+            no_ev = bool(os.environ.get('SIMLAB_NO_EVIDENCE'))
+            d = os.path.join(OUT, 'scratch', '%s-%d' % (prop, os.getpid())) if no_ev else os.path.join(OUT, prop, LOGS)
+            shutil.rmtree(d, ignore_errors=True)
+
+
+def _cmd_check(prop, tier, repo, batch_seed, runs=None, quiet=False, wall=None, only_seed=None):
     world_cls = worlds.load(prop)
     t0 = time.monotonic()
     no_evidence = bool(os.environ.get('SIMLAB_NO_EVIDENCE'))
-    out_dir = os.path.join(OUT, 'scratch', prop) if no_evidence else os.path.join(OUT, prop)
-    shutil.rmtree(os.path.join(out_dir, 'logs'), ignore_errors=True)
+    # two checks of one property may run at the same time (quick next to thorough, a self-test next to a check): each driver
+    # keeps its job files in a directory of its own
+    out_dir = os.path.join(OUT, 'scratch', '%s-%d' % (prop, os.getpid())) if no_evidence else os.path.join(OUT, prop)
+    shutil.rmtree(os.path.join(out_dir, LOGS), ignore_errors=True)
     os.makedirs(out_dir, exist_ok=True)
     n_runs = runs or world_cls.RUNS[tier]
     wall_s = wall or world_cls.WALL[tier]
